@@ -2,20 +2,24 @@ import Solvor.Common.Proto
 import Solvor.Pack.Model
 /-! Pack: line-protocol handler.
 
-`["knap", wR, vR, capR, wBits, vBits, capBits, minimize, implSel|null, implObj|null]`
-  wR/vR/capR  : weights, values, capacity as exact rationals `[num, den]` (the decimals the
-                generator wrote; spec side);  wBits/vBits/capBits : the doubles handed to Python
-  reply `[status|"ValueError", sel, fallback, lossless, intCap,      -- Float mirror of solve_knapsack
-          best|null,                                                  -- knapBest of (±values) on the rationals
-          [chkSel, chkKnapsack, selWeight, selValue] | null,              -- verified checkers on the implementation's answer
-          [dpSel, dpValue] | null]`                                   -- proved DP (ratOps) when weights/capacity are integers
+`["knap", wR, vR, [capStrict, capFeas, capOpt], wBits, vBits, capBits, wIsInt, vIsInt, minimize, implSel|null, implObj|null]`
+  wR/vR/cap*  : weights, values, capacities as exact rationals `[num, den]` (the exact values of the
+                doubles handed to Python; capFeas/capOpt = capacity plus/minus the documented tolerance)
+  wBits/vBits/capBits : the same doubles as bit patterns (Float mirror)
+  reply `[status|"ValueError", sel, objectiveBits, fallback, lossless, intCap,   -- Float mirror of solve_knapsack
+          bestOpt|null, bestStrict|null,                 -- knapBest of (±values) at capOpt / capStrict
+          [chkSel@capFeas, chkKnapsack@capFeas, selWeight, selValue] | null,  -- verified checkers on the implementation's answer
+          [dpSel, dpValue] | null]`                      -- proved DP (ratOps) when weights/capacity are integers
 
-`["pack", sR, capR, sBits, capBits, useBest, decreasing, implAsg|null, implK|null, wantOpt]`
-  reply `[[statusF|"ValueError", asgF, kF],                           -- Float mirror of solve_bin_pack
-          [statusR|"ValueError", asgR, kR, chkR],                     -- Rat mirror (theorem subject) + checker on it
-          chkImpl|null,
-          [minBins, witness assignment, chkPack on the witness] | null,   -- bounded oracle + verified certificate
-          ceil(sum/cap)]`
+`["pack", sR, [capStrict, capFeas], sBits, capBits, algorithm, implAsg|null, implK|null, readings]`
+  readings : list of `[cap, sizes]` (exact rationals) for which the optimum is wanted (strict /
+             tolerant / shrunk capacity, see ASSUMPTIONS of the check); may be empty
+  reply `[[statusF|"ValueError", asgF, kF],              -- Float mirror of solve_bin_pack (name parsing included)
+          [statusR|"ValueError", asgR, kR, chkR],        -- Rat mirror (theorem subject) at capStrict + checker on it
+          chkImpl@capFeas|null,
+          [[minBins, chkPack on its packing, minBinsP] per reading],
+              -- fast search + verified certificate (upper bound) and the proved lower bound `minBinsP`
+          ceil(sum/capFeas)]`
 -/
 namespace Solvor.Pack
 open Solvor.Proto
@@ -24,61 +28,78 @@ def fOfBits (b : Nat) : Float := Float.ofBits b.toUInt64
 
 def isNatRat (q : Rat) : Bool := q.den == 1 && decide (0 ≤ q.num)
 
-def handleKnap (wR vR : List Rat) (capR : Rat) (wB vB : List Nat) (capB : Nat) (minimize : Bool)
+def toBools? (v : Val) : Option (List Bool) := do (← v.toArr?).mapM Val.toBool?
+
+def handleKnap (wR vR : List Rat) (caps : List Rat) (wB vB : List Nat) (capB : Nat) (wI vI : List Bool) (minimize : Bool)
     (implSel : Option (List Nat)) (implObj : Option Rat) : Val :=
-  let mir := knapMirror (vB.map fOfBits) (wB.map fOfBits) (fOfBits capB) minimize
+  let capS := caps.getD 0 0
+  let capF := caps.getD 1 capS
+  let capO := caps.getD 2 capS
+  let mir := knapMirror floatOps floatConsts (vB.map fOfBits) (wB.map fOfBits) vI wI (fOfBits capB) minimize
   let sign : Rat := if minimize then -1 else 1
   let items := wR.zip vR
   let sitems := wR.zip (vR.map (sign * ·))
-  let best := if wR.length = vR.length then knapBest sitems capR else none
+  let ok := wR.length = vR.length
+  let bestO := if ok then knapBest sitems capO else none
+  let bestS := if ok then knapBest sitems capS else none
   let chk : Val := match implSel, implObj with
-    | some s, some ob => Val.arr [Val.bool (chkSel items capR s), Val.bool (chkKnapsack items capR s ob), Val.ofRat (selW items s), Val.ofRat (selV items s)]
+    | some s, some ob => Val.arr [Val.bool (chkSel items capF s), Val.bool (chkKnapsack items capF s ob),
+        Val.ofRat (selW items s), Val.ofRat (selV items s)]
     | _, _ => Val.null
   let dp : Val :=
-    if wR.length = vR.length && wR.all isNatRat && isNatRat capR && decide (capR.num.toNat ≤ 200000) then
-      let r := knapInt ratOps ((wR.map (·.num.toNat)).zip (vR.map (sign * ·))) capR.num.toNat
+    if ok && wR.all isNatRat && isNatRat capS && decide (capS.num.toNat ≤ 200000) then
+      let r := knapInt ratOps ((wR.map (·.num.toNat)).zip (vR.map (sign * ·))) capS.num.toNat
       Val.arr [Val.ofNats r.1, Val.ofRat r.2]
     else Val.null
   let head : List Val := match mir with
-    | .error e => [Val.str e, Val.arr [], Val.bool false, Val.bool false, Val.int 0]
-    | .ok r => [Val.str r.status.name, Val.ofNats r.sel, Val.bool r.fallback, Val.bool r.lossless, Val.int r.intCap]
-  Val.arr (head ++ [Val.ofOpt Val.ofRat best, chk, dp])
+    | .error e => [Val.str e, Val.arr [], Val.int 0, Val.bool false, Val.bool false, Val.int 0]
+    | .ok r => [Val.str r.status.name, Val.ofNats r.sel, Val.int r.objective.toBits.toNat, Val.bool r.fallback,
+        Val.bool r.lossless, Val.int r.intCap]
+  Val.arr (head ++ [Val.ofOpt Val.ofRat bestO, Val.ofOpt Val.ofRat bestS, chk, dp])
 
 def packVal : Except String PackRes → List Val
   | .error e => [Val.str e, Val.arr [], Val.int 0]
   | .ok r => [Val.str r.status.name, Val.ofNats r.asg, Val.int r.k]
 
-def handlePack (sR : List Rat) (capR : Rat) (sB : List Nat) (capB : Nat) (useBest decreasing : Bool)
-    (implAsg : Option (List Nat)) (implK : Option Nat) (wantOpt : Bool) : Val :=
-  let mf := pack floatOps (sB.map fOfBits) (fOfBits capB) useBest decreasing
-  let mr := pack ratOps sR capR useBest decreasing
+def handlePack (sR : List Rat) (caps : List Rat) (sB : List Nat) (capB : Nat) (algorithm : String)
+    (implAsg : Option (List Nat)) (implK : Option Nat) (readings : List (Rat × List Rat)) : Val :=
+  let capS := caps.getD 0 0
+  let capF := caps.getD 1 capS
+  let mf := packNamed floatOps (sB.map fOfBits) (fOfBits capB) algorithm
+  let mr := packNamed ratOps sR capS algorithm
   let chkR : Bool := match mr with
-    | .ok r => chkPack sR capR r.asg r.k
+    | .ok r => chkPack sR capS r.asg r.k
     | .error _ => false
   let chkI : Val := match implAsg, implK with
-    | some a, some k => Val.bool (chkPack sR capR a k)
+    | some a, some k => Val.bool (chkPack sR capF a k)
     | _, _ => Val.null
-  let opt : Val := if wantOpt && decide (0 < capR) then
-      let r := minBins sR capR
-      Val.arr [Val.int r.1, Val.ofNats r.2, Val.bool (chkPack sR capR r.2 r.1)]
-    else Val.null
-  let lb : Int := if 0 < capR then (sR.sum / capR).ceil else 0
+  let opt : Val := Val.arr (readings.map fun (c, ss) =>
+    if decide (0 < c) && ss.all (fun s => decide (0 ≤ s) && decide (s ≤ c)) then
+      let r := minBins ss c
+      Val.arr [Val.int r.1, Val.bool (chkPack ss c r.2 r.1), Val.int (minBinsP ss c)]
+    else Val.null)
+  let lb : Int := if 0 < capF then (sR.sum / capF).ceil else 0
   Val.arr [Val.arr (packVal mf), Val.arr (packVal mr ++ [Val.bool chkR]), chkI, opt, Val.int lb]
+
+def readings? (v : Val) : Option (List (Rat × List Rat)) := do
+  (← v.toArr?).mapM fun r => match r with
+    | Val.arr [c, ss] => do pure (← c.toRat?, ← ss.toRats?)
+    | _ => none
 
 def handle (line : String) : String :=
   match request line with
-  | some ("knap", [wR, vR, capR, wB, vB, capB, mn, isel, iobj]) =>
-    match wR.toRats?, vR.toRats?, capR.toRat?, wB.toNats?, vB.toNats?, capB.toNat?, mn.toBool?,
-          isel.toOpt? Val.toNats?, iobj.toOpt? Val.toRat? with
-    | some wR, some vR, some capR, some wB, some vB, some capB, some mn, some isel, some iobj =>
-      (handleKnap wR vR capR wB vB capB mn isel iobj).render
-    | _, _, _, _, _, _, _, _, _ => err "bad arguments"
-  | some ("pack", [sR, capR, sB, capB, ub, dec, iasg, ik, wo]) =>
-    match sR.toRats?, capR.toRat?, sB.toNats?, capB.toNat?, ub.toBool?, dec.toBool?,
-          iasg.toOpt? Val.toNats?, ik.toOpt? Val.toNat?, wo.toBool? with
-    | some sR, some capR, some sB, some capB, some ub, some dec, some iasg, some ik, some wo =>
-      (handlePack sR capR sB capB ub dec iasg ik wo).render
-    | _, _, _, _, _, _, _, _, _ => err "bad arguments"
+  | some ("knap", [wR, vR, caps, wB, vB, capB, wI, vI, mn, isel, iobj]) =>
+    match wR.toRats?, vR.toRats?, caps.toRats?, wB.toNats?, vB.toNats?, capB.toNat?, toBools? wI, toBools? vI,
+          mn.toBool?, isel.toOpt? Val.toNats?, iobj.toOpt? Val.toRat? with
+    | some wR, some vR, some caps, some wB, some vB, some capB, some wI, some vI, some mn, some isel, some iobj =>
+      (handleKnap wR vR caps wB vB capB wI vI mn isel iobj).render
+    | _, _, _, _, _, _, _, _, _, _, _ => err "bad arguments"
+  | some ("pack", [sR, caps, sB, capB, algo, iasg, ik, wo]) =>
+    match sR.toRats?, caps.toRats?, sB.toNats?, capB.toNat?, algo.toStr?,
+          iasg.toOpt? Val.toNats?, ik.toOpt? Val.toNat?, readings? wo with
+    | some sR, some caps, some sB, some capB, some algo, some iasg, some ik, some wo =>
+      (handlePack sR caps sB capB algo iasg ik wo).render
+    | _, _, _, _, _, _, _, _ => err "bad arguments"
   | _ => err "bad request"
 
 end Solvor.Pack
